@@ -179,6 +179,13 @@ for c in "ab" {
 }
 probe(4, n)
 `}}},
+	{name: "for-in-map", texts: [][2]string{{"main.p", `m = {"k0": 1, "k1": 2, "k2": 3}
+for k in m {
+  probe(1, 0)
+  probe(2, 0)
+}
+probe(3, 0)
+`}}},
 	{name: "while-style", texts: [][2]string{{"main.p", `n = lim()
 i = 0
 for ;; {
